@@ -288,6 +288,7 @@ class QGen:
         self.r = rng
         self.p_corr = p_corr   # share of item-position sub-queries whose WHERE refers to a table of the enclosing statement
         self.p_csub = 0.0      # opt-in: share of statements with a sub-query inside HAVING / GROUP BY / ORDER BY / a SET value
+        self.p_nested_setop = 0.0   # opt-in: share of set-operation operands that are themselves set operations
         self.classes = classes or CLS_NAMES
         self.p_alias = p_alias
         self.p_subq = p_subq
@@ -509,7 +510,11 @@ class QGen:
         base = self.select(cls, 1, small=True, nsel=k)
         ops = []
         for _ in range(self.r.choice([1, 1, 2, 3])):
-            ops.append([self.r.choice(list(SETOP)), self.select(self.cls(cls), 1, small=True, nsel=k if self.r.random() < 0.9 else k + 1)])
+            operand = self.select(self.cls(cls), 1, small=True, nsel=k if self.r.random() < 0.9 else k + 1)
+            if self.p_nested_setop and self.r.random() < self.p_nested_setop:
+                operand = {"k": "set", "base": operand,
+                           "ops": [[self.r.choice(list(SETOP)), self.select(self.cls(cls), 1, small=True, nsel=k)]]}
+            ops.append([self.r.choice(list(SETOP)), operand])
         q = {"k": "set", "base": base, "ops": ops}
         if self.r.random() < 0.3:
             q["orderby"] = [[["field", self.r.choice(COLS), None, None], self.r.choice([None, "asc", "desc"])]]
